@@ -256,7 +256,8 @@ def run_stream(chk, prog, sim, name, n=None):
     inputs = [(l, m, rt) for lab in order for (l, m, rt) in found if l == lab]
     # context for spec
     ctx = {}
-    fs = sim.adt_fields(self_ty) or []
+    import layout
+    fs = [(n_, t_) for n_, t_, _p in layout.leaves(sim, self_ty, stop=("Reference", "Time"))]
     for fname, fty in fs:
         if is_adt(fty, "Time"):
             ctx["max_delta"] = Sym("self.%s.0" % fname, prim("i64"))
